@@ -1,19 +1,16 @@
 /- BDS 2,1 aircraft and airline registration markings — crates/rs1090/src/decode/bds/bds21.rs -/
 import Rs1090.Model.Decode.Common
+import Rs1090.Gen.Chars21
 namespace Rs1090.Model.Bds21
 open Rs1090 Rs1090.Model
 
 def modelled : Bool := true
 
-/-- bds21.rs's own copy of `CHAR_LOOKUP`
-    (`b"#ABCDEFGHIJKLMNOPQRSTUVWXYZ##### ###############0123456789######"`), as byte values.
-    Hand-copied (no extractor yet); every one of the 64 entries is exercised at every character
-    position by the correspondence check. -/
-def charLookup21 : List Nat := [
-  35, 65, 66, 67, 68, 69, 70, 71, 72, 73, 74, 75, 76, 77, 78, 79,
-  80, 81, 82, 83, 84, 85, 86, 87, 88, 89, 90, 35, 35, 35, 35, 35,
-  32, 35, 35, 35, 35, 35, 35, 35, 35, 35, 35, 35, 35, 35, 35, 35,
-  48, 49, 50, 51, 52, 53, 54, 55, 56, 57, 35, 35, 35, 35, 35, 35 ]
+open Rs1090.Gen.Chars21 (charLookup21 regLen airlineLen)
+/- `charLookup21` is bds21.rs's own copy of `CHAR_LOOKUP`
+   (`b"#ABCDEFGHIJKLMNOPQRSTUVWXYZ##### ###############0123456789######"`), GENERATED as byte values
+   together with the two loop bounds (`regLen = 7`, `airlineLen = 2`) by gen/extractors/bds21.py,
+   which also refuses to run when the registration regex is not the one implemented below. -/
 
 /-- `for _ in .. { let c = u8 (6 bits); if c != 32 { chars.push(c) } }` -/
 def readCodes : Nat → R (List Nat)
@@ -84,10 +81,10 @@ def airlineRegistration (status : Bool) (codes : List Nat) : Outcome (Option (Li
     (it can never be `Some`). -/
 def read : R SerFields := do
   let acStatus ← flag
-  let codes ← readCodes 7
+  let codes ← readCodes regLen
   let reg ← R.lift (aircraftRegistration acStatus codes)
   let alStatus ← flag
-  let acodes ← readCodes 2
+  let acodes ← readCodes airlineLen
   let airline ← R.lift (airlineRegistration alStatus acodes)
   pure <| tagged (key! "bds") (key! "21") <| .ok [
     fldOpt (key! "registration") (reg.map Json.chars),
